@@ -76,6 +76,8 @@ theorem fixDeser_partition {buf f rest : Bytes} (h : fixDeser buf = .ok (some (f
           simp only [ok_bind] at h
           split at h
           · cases h
+          split at h
+          · cases h
           · simp only [pure_eq_ok] at h
             injection h with h
             injection h with h
